@@ -469,19 +469,22 @@ Proof.
 Qed.
 
 (* HttpProxyPlugin._on_client_data on a pipelined request that has just become complete
-   (PluginChain.run_later: the handle_client_request chain, then _queue_request_for_upstream) *)
-Theorem chain_later_request_is_forward fc (st : C.pstate) q l :
+   (PluginChain.run_later: the handle_client_request chain, then _queue_request_for_upstream);
+   [buf] = the parser's .buffer (bytes that followed the request), returned as the remainder *)
+Theorem chain_later_request_is_forward fc (st : C.pstate) q (buf : bytes) (l : C.log) :
   F.cf_via_append fc = true -> is_request (ty q) = true ->
-  C.run_later (ccfg_of fc) (ps_of fc) st (areq_of q) l =
+  C.run_later (ccfg_of fc) (ps_of fc) st (areq_of q) buf l =
   let l1 := l ++ map (fun p => C.Call (C.pid p) C.HCR (C.ARequest (areq_of q))) (ps_of fc) in
   match F.queue_request_for_upstream fc (A.rq_tunnel (C.st_request st)) q with
   | Ok (q2, w) =>
       (l1 ++ [C.QueueUpstream C.QRequest w],
        C.Continue (C.mkState (C.st_request st) true
-                     (if F.is_connection_upgrade q2 then Some (areq_of q2) else None)))
+                     (if F.is_connection_upgrade q2 then Some (areq_of q2, []) else None)),
+       A.nonempty (Some buf))
   | Err e =>
       (l1, C.Failed (C.mkState (C.st_request st) true
-                       (Some (areq_of (fwd_scrubbed fc (A.rq_tunnel (C.st_request st)) q)))) (C.FRaise e))
+                       (Some (areq_of (fwd_scrubbed fc (A.rq_tunnel (C.st_request st)) q), buf))) (C.FRaise e),
+       None)
   end.
 Proof.
   intros Hv Hty. unfold C.run_later. cbv zeta.
